@@ -923,6 +923,15 @@ class RequestHandler(BaseProtocol, Generic[_Request]):
                 status=exc.status, reason=exc.reason, text=exc.text, headers=exc.headers
             )
             prepare_meth = resp.prepare
+        if resp._eof_sent and request.writer.output_size == 0:
+            # Finished for another request: prepare() and write_eof() would
+            # silently do nothing and leave this request unanswered.
+            self.log_exception(f"Web-handler returned a sent response: {resp!r}")
+            exc = HTTPInternalServerError()
+            resp = Response(
+                status=exc.status, reason=exc.reason, text=exc.text, headers=exc.headers
+            )
+            prepare_meth = resp.prepare
         try:
             await prepare_meth(request)
             await resp.write_eof()
